@@ -29,7 +29,7 @@ def gen_doc(rng):
         t = {"command": strs() if rng.random() < 0.7 else strs(1)[0]}
         for k, gen in (("before", lambda: strs(2)), ("after", lambda: strs(2)), ("context", lambda: "c0"), ("dir", lambda: rng.choice([".", "/tmp", "{{.Root}}"])),
                        ("timeout", lambda: rng.choice(["1s", "500ms", 3, "2m"])), ("allow_failure", lambda: rng.random() < 0.5), ("interactive", lambda: False),
-                       ("export_as", lambda: "EXP"), ("env", smap), ("variables", smap), ("condition", lambda: "true"), ("description", lambda: "d"),
+                       ("exportAs", lambda: "EXP"), ("env", smap), ("variables", smap), ("condition", lambda: "true"), ("description", lambda: "d"),
                        ("name", lambda: "nm%d" % i), ("variations", lambda: [smap() for _ in range(rng.randint(1, 2))]), ("env_file", lambda: "e.env")):
             if rng.random() < 0.3:
                 t[k] = gen()
